@@ -149,6 +149,25 @@ theorem prepend_compose (f1 f2 : Nat) (p1 p2 : Bytes) (e : Err)
 theorem prepend_drops_cause (fresh : Nat) (p : Bytes) (e : Err) : (prependError fresh p e).unwrap = none := by
   cases e <;> rfl
 
+/-- `String()` shows the message faithfully: every ASCII byte's escape sequence decodes back to that
+    byte (so different messages print differently), checked over all 128 bytes. -/
+theorem string_quote_bytewise :
+    (List.range 128).all (fun n => unquoteByte (quoteByte (UInt8.ofNat n)) == some (UInt8.ofNat n)) = true := by
+  decide +kernel
+
+/-- `String()` is the fixed name, the type id in decimal and the quoted message, in that order. -/
+theorem string_shape (t : Int) (m : Bytes) (pre mid : List Char)
+    (h : fmtTokens Facts.appExcStringFormat.toList [] = [.lit pre, .d, .lit mid, .q]) :
+    appString t m = bytesOf (String.ofList pre) ++ bytesOf (toString t) ++ bytesOf (String.ofList mid) ++
+      ([34] ++ m.flatMap quoteByte ++ [34]) := by
+  simp only [appString, h, renderFmt, quoteAscii, List.append_nil, List.append_assoc]
+
+/-- today's format literal has exactly that shape (guarded so that a reworded literal does not break the build:
+    `String()` is not part of the property statement, the correspondence check still compares the text) -/
+example : Facts.appExcStringFormat ≠ "ApplicationException(%d): %q" ∨
+    fmtTokens Facts.appExcStringFormat.toList [] =
+      [.lit "ApplicationException(".toList, .d, .lit "): ".toList, .q] := by decide
+
 /-! non-vacuity -/
 example : ¬ ((Err.foreign 0 1 []).kind = .foreign ∧ (Err.foreign 0 1 []).text = [] ∧ bytesOf "x: " = []) := by decide
 example : (prependError 9 (bytesOf "x: ") (.application 0 1 [])).text = bytesOf "x: unknown method" := by decide
@@ -160,5 +179,7 @@ example : errorsIs (.protocolW 0 5 [] (.plain 3 [1])) (.protocolW 0 5 [] (.plain
 
 example : errorsAs (.ty .fe) (wrapErr 7 (.foreign 1 5 [])) 0 = some (.foreign 1 5 [], 1) := by decide
 example : errorsAs .texc (.wrapped 1 [] (.wrapped 2 [] (.transport 3 5 [1]))) 0 = some (.transport 3 5 [1], 2) := by decide
+
+example : appString 6 (bytesOf "a\"b\n") = bytesOf "ApplicationException(6): \"a\\\"b\\n\"" := by decide +kernel
 
 end Verif.C18
